@@ -15,7 +15,8 @@ EXPLANATION = (
     "consumed from the local side before the credit take, and each consume() takes the length of the chunk that "
     "was appended; (R5) byte counters are advanced by exactly the amounts consumed / queued.")
 EXPLANATION_ADDED = "R4 also decides: local EOF -> Finish is reachable without a credit take, every credit take builds a Push, mux->local consumes what poll_write reported; (R5) every consume is counted and every count stored in a direction's state derives from the previous state's count; (R6) in the joint poll both `?` dominate every Pending exit."
-EXPLANATION = EXPLANATION + " Added while testing against seeded changes: " + EXPLANATION_ADDED
+EXPLANATION_ADDED2 = ' (R7) both directions start in the constant Transferring(0).'
+EXPLANATION = EXPLANATION + " Added while testing against seeded changes: " + EXPLANATION_ADDED + EXPLANATION_ADDED2
 ASSUMPTIONS = ["AsyncBufRead/AsyncWrite implementations of the local side honour the tokio contracts "
                "(a Pending return has registered the waker)"]
 NOT_DECIDED = "scripts of partial readiness and byte-exact relaying at run time"
